@@ -1237,16 +1237,143 @@ def value_wrappers(ctx):
     ctx.decide('Type::typecheck_value/witness', [pcs(rets)], expect='sat', ex=ex)
 
 
+def entry_points(ctx):
+    """every core entry point that takes a schema runs the checker on every datum it admits: Entities::{add_entities, upsert_entities, from_entities} (one entity of the batch /
+    of the map, symbolic), EntityJsonParser::single_from_ejson, Request::{new, new_with_unknowns}: a successful return implies the conformance check ran on THIS datum and passed"""
+    P = ctx.prog('core')
+    V = z3.Bool('datum_conforms')
+
+    def one(cands, what):
+        if len(cands) != 1:
+            raise LookupError(f'{what}: {len(cands)} candidates')
+        ctx.use(cands[0])
+        return cands[0]
+
+    def verdict_stub(ex, entity, tag):
+        def ve(ex_, st, c, A):
+            hit = ident(ex_, st, A[1]) == entity.id
+            st.notes.setdefault('validated', []).append(bool(hit))
+            return [([V], ok(UNIT)), ([z3.Not(V)], err(Opaque('EntitySchemaConformanceError', 'nonconformant')))]
+        ex.stub(r'EntitySchemaConformanceChecker::<.*>::validate_entity$', ve, tag)
+
+    def conclude(nm, ex, outs, with_schema, role):
+        oks = [o for o in outs if o.kind == 'ret' and isinstance(o.val, Agg) and o.val.variant == 'Ok']
+        opaque = [o for o in outs if o.kind == 'ret' and not (isinstance(o.val, Agg) and o.val.variant in ('Ok', 'Err'))]
+        if opaque:
+            raise NotEncoded(f'{nm}: result of unknown shape {opaque[0].val!r}')
+        for i, o in enumerate(oks):
+            ran = any(o.st.notes.get('validated', []))
+            claim = z3.And(z3.BoolVal(bool(ran)), V) if with_schema else T
+            ctx.decide(f'{nm}/ok-path{i}', o.pc + [z3.Not(claim)], ex=ex, on_sat=lambda mm: battery_replay(ctx, nm, role, 'an entry point admits a datum without (successfully) running the conformance check on it'))
+        ctx.decide(f'{nm}/witness-admits', [pcs(oks)], expect='sat', ex=ex)
+        if with_schema:
+            ctx.decide(f'{nm}/witness-rejects', [pcs([o for o in outs if o.kind == 'ret' and o.val.variant == 'Err'])], expect='sat', ex=ex)
+
+    # --- Entities::add_entities / upsert_entities
+    for meth in ('add_entities', 'upsert_entities'):
+        f = one([c for c in P.find(r'>::' + meth + '$', 'cedar-policy-core/src/entities.rs') if c.args and c.args[0][1].endswith('Entities')], meth)
+        for with_schema in (True, False):
+            ex = entity_exec(ctx)
+            ex.max_paths = 600
+            entity = Opaque('ast::entity::Entity', 'the entity of the batch')
+            verdict_stub(ex, entity, 'validate_entity(entity of the batch): arbitrary verdict, logged')
+            ex.stub(r'HashMap::<.*>::(values|values_mut)$', lambda ex_, st, c, A: Agg('struct', '~vec_iter', None, []), 'entities.values(): no other entity in the store (closure maintenance is C04)')
+            ex.stub(r'HashMap::<.*>::get::<', lambda ex_, st, c, A: none(), 'entities.get(uid): not present before')
+            ex.stub(r'(^|::)update_entity_map$', lambda ex_, st, c, A: [([z3.Bool('no_duplicate')], ok(UNIT)), ([z3.Not(z3.Bool('no_duplicate'))], err(Opaque('entities::err::EntitiesError', 'duplicate')))], 'update_entity_map: ok or duplicate')
+            ex.stub(r'(^|::)(enforce_tc_and_dag|repair_tc|compute_tc)::<', lambda ex_, st, c, A: [([z3.Bool('tc_ok')], ok(UNIT)), ([z3.Not(z3.Bool('tc_ok'))], err(Opaque('TcError', 'tc')))], 'transitive-closure maintenance: ok or error (C04)')
+            ex.from_wrappers.add('EntitiesError')
+            ents = Agg('struct', 'entities::Entities', None, [Opaque('HashMap<EntityUID, Arc<Entity>>', 'map'), Opaque('entities::Mode', 'mode')], ('entities', 'mode'))
+            coll = Agg('struct', '~vec_iter', None, [Agg('struct', 'Arc', None, [entity], ('inner',))])
+            args = [ents, coll, some(Ref(0, ('local', 'S'))) if with_schema else none(), Opaque('entities::TCComputation', 'tc'), Ref(0, ('local', 'EXT'))]
+            outs = ex.run(f, args, heap={'S': Opaque('S', 'schema'), 'EXT': Opaque('Extensions', 'ext')})
+            ctx.absorb(ex)
+            conclude(f'Entities::{meth}[{"with" if with_schema else "without"} schema]', ex, outs, with_schema, f'entities.rs: Entities::{meth} validates every added entity')
+    # --- Entities::from_entities
+    f = one(P.find(r'>::from_entities$', 'cedar-policy-core/src/entities.rs'), 'from_entities')
+    for with_schema in (True, False):
+        ex = entity_exec(ctx)
+        ex.max_paths = 600
+        entity = Opaque('ast::entity::Entity', 'an entity of the map')
+        uid, ty = Opaque('ast::entity::EntityUID', 'uid'), Opaque('ast::entity::EntityType', 'type')
+        verdict_stub(ex, entity, 'validate_entity(entity of the map): arbitrary verdict, logged')
+        ex.stub(r'(^|::)create_entity_map::<', lambda ex_, st, c, A: [([z3.Bool('no_duplicate')], ok(Opaque('HashMap<EntityUID, Arc<Entity>>', 'entity map'))), ([z3.Not(z3.Bool('no_duplicate'))], err(Opaque('entities::err::EntitiesError', 'duplicate')))], 'create_entity_map: the map or duplicate error')
+        ex.stub(r'HashMap::<.*>::values$', lambda ex_, st, c, A: Agg('struct', '~vec_iter', None, [ex_.new_cell(st, Agg('struct', 'Arc', None, [entity], ('inner',)), 'arc')]), 'entity_map.values(): one symbolic entity (any entity of the map)')
+        ex.stub(r'Entity::uid$', lambda ex_, st, c, A: ex_.new_cell(st, uid, 'uid'), 'Entity::uid')
+        ex.stub(r'EntityUID::entity_type$', lambda ex_, st, c, A: ex_.new_cell(st, ty, 'ty'), 'EntityUID::entity_type')
+        ex.stub(r'EntityType::is_action$', lambda ex_, st, c, A: BoolV(z3.Bool('is_action')), 'EntityType::is_action: free boolean')
+        ex.stub(r'(^|::)(enforce_tc_and_dag|repair_tc|compute_tc)::<', lambda ex_, st, c, A: [([z3.Bool('tc_ok')], ok(UNIT)), ([z3.Not(z3.Bool('tc_ok'))], err(Opaque('TcError', 'tc')))], 'transitive-closure maintenance: ok or error (C04)')
+        ex.stub(r'as Extend<.*>>::extend::<|Schema>::action_entities$| as Iterator>::map::<', lambda ex_, st, c, A: UNIT if 'extend' in c else Opaque('iter', 'iterator'), 'schema action entities added to the map (payload)')
+        ex.from_wrappers.add('EntitiesError')
+        args = [Opaque('impl IntoIterator<Item = Entity>', 'entities'), some(Ref(0, ('local', 'S'))) if with_schema else none(), Opaque('entities::TCComputation', 'tc'), Ref(0, ('local', 'EXT'))]
+        outs = ex.run(f, args, heap={'S': Opaque('S', 'schema'), 'EXT': Opaque('Extensions', 'ext')})
+        ctx.absorb(ex)
+        conclude(f'Entities::from_entities[{"with" if with_schema else "without"} schema]', ex, outs, with_schema, 'entities.rs: Entities::from_entities validates every entity (actions and non-actions)')
+    # --- EntityJsonParser::single_from_ejson
+    f = one(P.find(r'>::single_from_ejson$', 'cedar-policy-core/src/entities/json/entities.rs'), 'single_from_ejson')
+    for with_schema in (True, False):
+        ex = entity_exec(ctx)
+        entity = Opaque('ast::entity::Entity', 'the parsed entity')
+        verdict_stub(ex, entity, 'validate_entity(parsed entity): arbitrary verdict, logged')
+        ex.stub(r'EntityJsonParser::<.*>::parse_ejson$', lambda ex_, st, c, A: [([z3.Bool('parses')], ok(entity)), ([z3.Not(z3.Bool('parses'))], err(Opaque('JsonDeserializationError', 'e')))], 'parse_ejson: the entity or a parse error')
+        ex.from_wrappers.add('EntitiesError')
+        parser = Agg('struct', 'EntityJsonParser', None, [some(Ref(0, ('local', 'S'))) if with_schema else none(), Ref(0, ('local', 'EXT')), Opaque('TCComputation', 'tc')], ('schema', 'extensions', 'tc_computation'))
+        outs = ex.run(f, [Ref(0, ('local', 'P')), Opaque('EntityJson', 'ejson')], heap={'S': Opaque('S', 'schema'), 'EXT': Opaque('Extensions', 'ext'), 'P': parser})
+        ctx.absorb(ex)
+        conclude(f'EntityJsonParser::single_from_ejson[{"with" if with_schema else "without"} schema]', ex, outs, with_schema, 'entities/json/entities.rs: single_from_ejson validates the parsed entity')
+    # --- Request::new / new_with_unknowns
+    for meth, nargs in (('new', 6), ('new_with_unknowns', 6)):
+        f = one([c for c in P.find(r'>::' + meth + '$', 'cedar-policy-core/src/ast/request.rs') if len(c.args) == nargs and 'Option<&S>' in c.args[4][1]], 'Request::' + meth)
+        for with_schema in (True, False):
+            ex = entity_exec(ctx)
+            cx = Opaque('ast::request::Context', 'the context')
+            parts = {k: Opaque('ast::entity::EntityUID', k) for k in ('principal', 'action', 'resource')}
+
+            def vr(ex_, st, c, A, parts=parts, cx=cx, meth=meth):
+                rq = res(ex_, st, A[1])
+                good = isinstance(rq, Agg) and len(rq.fields) == 4
+                if good and meth == 'new':
+                    for i, k in enumerate(('principal', 'action', 'resource')):
+                        e = rq.fields[i]
+                        good = good and isinstance(e, Agg) and any(getattr(res(ex_, st, x), 'id', None) == parts[k].id or (isinstance(x, Agg) and x.fields and getattr(res(ex_, st, x.fields[0]), 'id', None) == parts[k].id) for x in e.fields)
+                    c4 = rq.fields[3]
+                    good = good and isinstance(c4, Agg) and c4.variant == 'Some' and getattr(c4.fields[0], 'id', None) == cx.id
+                st.notes.setdefault('validated', []).append(bool(good))
+                return [([V], ok(UNIT)), ([z3.Not(V)], err(Opaque('RequestValidationError', 'nonconformant')))]
+            ex.stub(r' as (ast::request::)?RequestSchema>::validate_request$', vr, 'RequestSchema::validate_request(the request being built): arbitrary verdict, logged')
+            if meth == 'new':
+                args = [Agg('tuple', None, None, [parts[k], none()]) for k in ('principal', 'action', 'resource')] + [cx]
+            else:
+                args = [Opaque('ast::request::EntityUIDEntry', k) for k in ('principal', 'action', 'resource')] + [some(cx)]
+            args += [some(Ref(0, ('local', 'S'))) if with_schema else none(), Ref(0, ('local', 'EXT'))]
+            outs = ex.run(f, args, heap={'S': Opaque('S', 'schema'), 'EXT': Opaque('Extensions', 'ext')})
+            ctx.absorb(ex)
+            conclude(f'Request::{meth}[{"with" if with_schema else "without"} schema]', ex, outs, with_schema, f'ast/request.rs: Request::{meth} validates the request it builds')
+
+
 def families(ctx):
     return [('request scope variables', lambda: scope_variables(ctx)), ('request entry', lambda: request_entry(ctx)), ('request context', lambda: context_check(ctx)),
             ('enumerated ids', lambda: enumerated(ctx)), ('entity uid', lambda: euid_check(ctx)), ('action entity', lambda: action_check(ctx)), ('entity entry', lambda: entity_entry(ctx)),
             ('entity ancestors', lambda: ancestors_check(ctx)), ('entity attributes', lambda: attributes_check(ctx)), ('entity tags', lambda: tags_check(ctx)),
             ('uids inside values', lambda: euids_in_subexpressions(ctx)), ('value wrappers', lambda: value_wrappers(ctx)),
-            ('values against schema types', lambda: schematype_nodes(ctx)), ('values against validator types', lambda: validator_type_nodes(ctx))]
+            ('values against schema types', lambda: schematype_nodes(ctx)), ('values against validator types', lambda: validator_type_nodes(ctx)),
+            ('entry points', lambda: entry_points(ctx))]
 
 
 def run(ctx):
     for name, fn in families(ctx):
         ctx.guarded(name, fn)
     ctx.guarded('native battery', lambda: battery_selftest(ctx))
-    return ctx.finish('C11 (in progress)')
+    ctx.bounds += ['one node / one loop element at a time with arbitrary verdicts for the members (structural induction => data of any depth and size): sets, records, record types, attribute maps, tag maps, '
+                   'ancestor lists, sub-expression lists and required-attribute lists with <= 2 members (<= 3 enumerated choices); member names compared through symbolic identities',
+                   f'native battery: {len(ENTITY_BATTERY)} entity probes (some repeated because ancestor / tag iteration order is hash-dependent) and {len(REQUEST_BATTERY)} request probes, each violating at most one requirement '
+                   'at one position (top level, nested record, set element, record in set, set in set, tag value, ancestor), through every public entry point that takes a schema']
+    ctx.assumptions += ['schema look-ups (Schema::{entity_type, action}, EntityTypeDescription::{attr_type, tag_type, required_attrs, allowed_parent_types, open_attributes, enum_entity_eids}, ValidatorSchema::{get_entity_type, '
+                        'get_action_id}, ValidatorActionId::{is_applicable_*_type, context_type}, Extensions::func, ExtensionFunction::{return_type, arg_types}) are environment stubs returning arbitrary answers: that the '
+                        'schema object answers them correctly (e.g. allowed_parent_types is transitively closed, CoreSchema / EntityTypeDescription::new) is NOT decided here, only exercised by the native battery',
+                        'equality of names / entity types / ids and Entity::deep_eq are free booleans; HashMap / BTreeMap / iterator adaptors over the <= 2-member containers are models (mir2smt/models.py: m_iter_hof)',
+                        'callees unknown to this module return arbitrary values (havoc_unknown): a counterexample through them is only reported if the native battery reproduces a wrong verdict, otherwise the run ends UNCONFIRMED (exit 2)',
+                        'JSON parsing (schema-directed coercions of __entity / __extn forms, EntityJsonParser::parse_ejson, ContextJsonParser) and the TPE entry points (tpe/entities.rs, tpe/request.rs, tpe/response.rs) are NOT covered symbolically']
+    return ctx.finish('Solver-decided schema conformance, executed from the MIR of the current tree, one node / loop element at a time: request validation (scope variables for all 8 presence patterns, context, wiring), '
+                      'entity validation (entry, uid, action, ancestors, attributes incl. required / undeclared / open, tags), entity uids inside values, typing of values against schema types '
+                      '(typecheck_restricted_expr_against_schematype: 10 type shapes x 12 value shapes) and against validator types (Type::typecheck_restricted_expr: 14 x 13), and that every core entry point that takes a '
+                      'schema admits a datum only after the check ran on it and passed; plus a native battery of single-requirement probes through every public entry point.')
